@@ -4,6 +4,9 @@
 use std::sync::mpsc::channel;
 use std::time::Duration;
 
+/// number of calls that did not return so far in this process (each leaves a spinning thread behind)
+pub static HANGS: std::sync::atomic::AtomicUsize = std::sync::atomic::AtomicUsize::new(0);
+
 pub enum Outcome<T> {
     Done(T),
     Panic,
@@ -25,7 +28,10 @@ pub fn run<T: Send + 'static>(secs: u64, f: impl FnOnce() -> T + Send + 'static)
             Outcome::Done(v)
         }
         Ok(Err(_)) => Outcome::Panic,
-        Err(_) => Outcome::Hang,
+        Err(_) => {
+            HANGS.fetch_add(1, std::sync::atomic::Ordering::SeqCst);
+            Outcome::Hang
+        }
     }
 }
 
